@@ -2,7 +2,7 @@
    Only statements; every proof is one lemma of the Proofs* files. *)
 From Coq Require Import List Bool Arith ZArith QArith Qcanon.
 From AL Require Import Base.CaseLib C04.Model C06.Model C06.Spec.
-From AL Require Import C06.ProofsAlg C06.ProofsPull C06.ProofsLoop C06.ProofsWf C06.Check.
+From AL Require Import C04.Spec C06.ProofsAlg C06.ProofsPull C06.ProofsLoop C06.ProofsWf C06.ProofsEq C06.ProofsGain C06.ProofsKeys C06.ProofsUniq C06.Check.
 Import ListNotations.
 Open Scope Qc_scope.
 
@@ -72,12 +72,10 @@ Print Assumptions C06_pull_value.
    delivered items: ZeroDivisionError, on which the text is silent).
    wf_prog is the boolean test of C06.ProofsWf (tee copies consistent, one clean
    round); Check.corr_tv evaluates it on the model's program of every sampled case.
-   PARTIAL with respect to DESIGN's tv_diffeq: the statement is about the generated
-   program; the two steps "registers m_k, d_k = y[n-k], x[n-k]" and "sum of the
-   generated terms = sum over the coefficient tables" are proved for constant
-   coefficients in C04 (loop_diffeq, data_sum_value) and not repeated here for
-   Next terms; and wf_prog is checked per sampled filter instead of being proved
-   for every filter the arithmetic can build. *)
+   The sequence form (registers = past samples, sum of terms = sum over the tables,
+   the gain branch) is C06_tv_diffeq below.
+   PARTIAL: wf_prog is checked per sampled filter instead of being proved for every
+   filter the arithmetic can build. *)
 Theorem C06_tv_round_spec_partial : forall S (f : tfilt) (p : tprog) memory zero fuel,
   wf_prog f p = true ->
   round_spec S (stream_iters (t_num f)) (stream_iters (t_den f)) p fuel 0
@@ -86,6 +84,55 @@ Theorem C06_tv_round_spec_partial : forall S (f : tfilt) (p : tprog) memory zero
              (run_tv S (TGen p) f memory zero fuel).
 Proof. exact run_tv_wf. Qed.
 Print Assumptions C06_tv_round_spec_partial.
+
+(* tv_diffeq, in full.  For a filter with keys in order (distinct non-negative powers),
+   whatever subset of its coefficients are Stream objects (built by any arithmetic),
+   number gain or Stream gain (the divide-through branch), any memory, zero, sources and
+   consumer demand: with x before 0 = zero, y[-k] = the k-th memory item (C04's past),
+   and every table entry frozen at the instant j (vtab: a constant is a constant
+   sequence, a Stream its j-th value), every output j satisfies
+       a0[j] * y[j] = sum_k b_k[j] * x[j-k] - sum_{k>=1} a_k[j] * y[j-k]
+   provided a0[j] is defined and non-zero.  psum / feedback / ysig / past are C04's. *)
+Theorem C06_tv_diffeq : forall S (f : tfilt) h zero mem fuel f' h' p,
+  keys_ok (t_num f) -> keys_ok (t_den f) ->
+  prepare h f = Ok (BOk f' h') -> tcodegen f' zero = Ok (TGen p) -> wf_prog f' p = true ->
+  let lm := t_mem_size f' in
+  let ys := yields (run_tv S (TGen p) f' (normalise_memory lm zero mem) zero fuel) in
+  let X := xrel S 0 (fun _ => zero) in
+  let Y := ysig (past lm zero mem) ys in
+  forall j, (j < length ys)%nat ->
+  forall a0, gain_at (snapshot S j) f = Some a0 -> a0 <> 0 ->
+    a0 * Y (Z.of_nat j)
+    = psum (vtab (snapshot S j) (t_num f)) (fun k => X (Z.of_nat j - k)%Z)
+      - psum (feedback (vtab (snapshot S j) (t_den f))) (fun k => Y (Z.of_nat j - k)%Z).
+Proof. exact tv_diffeq_full. Qed.
+Print Assumptions C06_tv_diffeq.
+
+(* Every Poly the modelled arithmetic builds is a dict with pairwise distinct powers
+   (induction over the expression; bases_ok: the dicts the expression starts from have
+   distinct keys, as Python dicts do), so every filter __call__ accepts (its causality
+   test passed) has its keys in order. *)
+Theorem C06_built_keys_ok : forall (e : fexp) h f h1 r,
+  bases_ok e -> build coef_alg e h = BOk f h1 -> prepare h1 f = Ok r ->
+  keys_ok (t_num f) /\ keys_ok (t_den f).
+Proof. exact built_keys_ok. Qed.
+Print Assumptions C06_built_keys_ok.
+
+(* tv_diffeq for every filter the arithmetic builds: no hypothesis on the tables *)
+Theorem C06_tv_diffeq_built : forall S (e : fexp) h0 (f : tfilt) h zero mem fuel f' h' p,
+  bases_ok e -> build coef_alg e h0 = BOk f h ->
+  prepare h f = Ok (BOk f' h') -> tcodegen f' zero = Ok (TGen p) -> wf_prog f' p = true ->
+  let lm := t_mem_size f' in
+  let ys := yields (run_tv S (TGen p) f' (normalise_memory lm zero mem) zero fuel) in
+  let X := xrel S 0 (fun _ => zero) in
+  let Y := ysig (past lm zero mem) ys in
+  forall j, (j < length ys)%nat ->
+  forall a0, gain_at (snapshot S j) f = Some a0 -> a0 <> 0 ->
+    a0 * Y (Z.of_nat j)
+    = psum (vtab (snapshot S j) (t_num f)) (fun k => X (Z.of_nat j - k)%Z)
+      - psum (feedback (vtab (snapshot S j) (t_den f))) (fun k => Y (Z.of_nat j - k)%Z).
+Proof. exact tv_diffeq_built. Qed.
+Print Assumptions C06_tv_diffeq_built.
 
 (* tv_ends_at_shortest.  If no coefficient divides by zero among the items the
    sources deliver, the number of outputs is the number of consecutive instants
@@ -117,17 +164,41 @@ Theorem C06_coef_read_once : forall S (f : tfilt) (p : tprog) memory zero fuel,
 Proof. exact read_once. Qed.
 Print Assumptions C06_coef_read_once.
 
-(* tv_const_stream, term level: a next(b_k) / next(a_k) whose iterator delivers c
-   at this instant contributes what the constant term "(c) * d_k" / "-(c) * m_k"
-   contributes.  PARTIAL: not lifted to "the two filters have equal outputs". *)
-Theorem C06_tv_const_stream_partial : forall V bs az k e c r m d acc,
+(* tv_const_stream.  Two filters run by the library on the same input, memory and zero
+   whose coefficient tables agree at every instant - in particular a constant c in one
+   and an endless Stream of c in the other (cval of both is c: const_stream_entry) -
+   and with the same denominator keys: wherever both produce an output (the gain being
+   defined, equal and non-zero there) the outputs are equal. *)
+Theorem C06_tv_const_stream : forall S (f1 f2 : tfilt) h1 h2 zero mem fuel f1' f2' h1' h2' p1 p2,
+  keys_ok (t_num f1) -> keys_ok (t_den f1) -> keys_ok (t_num f2) -> keys_ok (t_den f2) ->
+  prepare h1 f1 = Ok (BOk f1' h1') -> tcodegen f1' zero = Ok (TGen p1) -> wf_prog f1' p1 = true ->
+  prepare h2 f2 = Ok (BOk f2' h2') -> tcodegen f2' zero = Ok (TGen p2) -> wf_prog f2' p2 = true ->
+  map fst (t_den f1) = map fst (t_den f2) ->
+  (forall j, vtab (snapshot S j) (t_num f1) = vtab (snapshot S j) (t_num f2)) ->
+  (forall j, vtab (snapshot S j) (t_den f1) = vtab (snapshot S j) (t_den f2)) ->
+  let ys1 := yields (run_tv S (TGen p1) f1' (normalise_memory (t_mem_size f1') zero mem) zero fuel) in
+  let ys2 := yields (run_tv S (TGen p2) f2' (normalise_memory (t_mem_size f2') zero mem) zero fuel) in
+  (forall j, (j < length ys1)%nat -> (j < length ys2)%nat ->
+     exists a0, gain_at (snapshot S j) f1 = Some a0 /\ gain_at (snapshot S j) f2 = Some a0 /\ a0 <> 0) ->
+  forall j, (j < length ys1)%nat -> (j < length ys2)%nat -> nth j ys1 0 = nth j ys2 0.
+Proof. exact outputs_agree_run. Qed.
+Print Assumptions C06_tv_const_stream.
+
+Theorem C06_const_stream_entry : forall S i c, (forall n, S i n = Some c) ->
+  forall j, cval (snapshot S j) (CStr (XSrc i)) = cval (snapshot S j) (CNum c).
+Proof. exact const_stream_entry. Qed.
+Print Assumptions C06_const_stream_entry.
+
+(* the same at the level of one generated term: a next(b_k) / next(a_k) whose iterator
+   delivers c at this instant contributes what "(c) * d_k" / "-(c) * m_k" contributes *)
+Theorem C06_tv_const_stream_term : forall V bs az k e c r m d acc,
   xval V e = Some c ->
   (lookup bs k = Some e ->
    tsum V bs az (TNextB k :: r) m d acc = tsum V bs az (TConst (CoefD c k) :: r) m d acc) /\
   (lookup az k = Some e ->
    tsum V bs az (TNextA k :: r) m d acc = tsum V bs az (TConst (NegCoefM c k) :: r) m d acc).
 Proof. exact tsum_const. Qed.
-Print Assumptions C06_tv_const_stream_partial.
+Print Assumptions C06_tv_const_stream_term.
 
 (* ------------------------------------------------------------ non-vacuity *)
 (* (s1 + z^-1) / (s2 + z^-1 / 2)  *  (1 + s3 z^-1): a Stream gain, Streams that feed
@@ -201,3 +272,57 @@ Proof.
   cbn [tsum ex2_prog tp_prog p_terms ex2_f t_num t_den stream_iters flat_map snd fst app lookup Nat.eqb Z.to_nat xval]; discriminate.
 Qed.
 Print Assumptions C06_nonvacuous_ends.
+
+(* the hypotheses of C06_tv_diffeq hold for ex_expr (Stream gain, tee copies): *)
+Example C06_nonvacuous_diffeq :
+  match build coef_alg ex_expr 0 with
+  | BOk f h =>
+      keys_ok_b (t_num f) = true /\ keys_ok_b (t_den f) = true /\
+      match prepare h f with
+      | Ok (BOk f' _) =>
+          match tcodegen f' 0 with
+          | Ok (TGen p) =>
+              wf_prog f' p = true /\
+              length (yields (run_tv (sources_of ex_srcs) (TGen p) f'
+                                     (normalise_memory (t_mem_size f') 0 MNone) 0 5)) = 3%nat /\
+              gain_at (snapshot (sources_of ex_srcs) 1) f = Some (qc 7 1)
+          | _ => False
+          end
+      | _ => False
+      end
+  | BErr _ => False
+  end.
+Proof. vm_compute. repeat split; reflexivity. Qed.
+Print Assumptions C06_nonvacuous_diffeq.
+
+(* C06_tv_const_stream is not vacuous: (s1 + 2 z^-1) / (1 + s2 z^-1) against the same
+   filter with the 2 replaced by source 3 = the endless stream of 2 *)
+Definition ex3_f1 : tfilt := TF [(0%Z, CStr (XSrc 1)); (1%Z, CNum (qc 2 1))] [(0%Z, CNum 1); (1%Z, CStr (XSrc 2))].
+Definition ex3_f2 : tfilt := TF [(0%Z, CStr (XSrc 1)); (1%Z, CStr (XSrc 3))] [(0%Z, CNum 1); (1%Z, CStr (XSrc 2))].
+Definition ex3_S : sources :=
+  sources_of [SFin [qc 1 1; qc 2 1; qc 3 1; qc 4 1]; SFin [qc 5 1; qc 7 1; qc 9 1]; SCyc [qc 1 2]; SCyc [qc 2 1]].
+Definition ex3_p1 : tprog :=
+  Eval vm_compute in match tcodegen ex3_f1 0 with Ok (TGen p) => p | _ => TProg (Prog [] [] [] GOne [] []) [] [] false end.
+Definition ex3_p2 : tprog :=
+  Eval vm_compute in match tcodegen ex3_f2 0 with Ok (TGen p) => p | _ => TProg (Prog [] [] [] GOne [] []) [] [] false end.
+
+Example C06_nonvacuous_const_stream :
+  keys_ok_b (t_num ex3_f1) = true /\ keys_ok_b (t_den ex3_f1) = true /\
+  keys_ok_b (t_num ex3_f2) = true /\ keys_ok_b (t_den ex3_f2) = true /\
+  prepare 0 ex3_f1 = Ok (BOk ex3_f1 0) /\ tcodegen ex3_f1 0 = Ok (TGen ex3_p1) /\ wf_prog ex3_f1 ex3_p1 = true /\
+  prepare 0 ex3_f2 = Ok (BOk ex3_f2 0) /\ tcodegen ex3_f2 0 = Ok (TGen ex3_p2) /\ wf_prog ex3_f2 ex3_p2 = true /\
+  (forall j, vtab (snapshot ex3_S j) (t_num ex3_f1) = vtab (snapshot ex3_S j) (t_num ex3_f2)) /\
+  yields (run_tv ex3_S (TGen ex3_p1) ex3_f1 [0] 0 6) = [qc 5 1; qc 27 2; qc 97 4] /\
+  yields (run_tv ex3_S (TGen ex3_p2) ex3_f2 [0] 0 6) = [qc 5 1; qc 27 2; qc 97 4].
+Proof.
+  do 10 (split; [vm_compute; reflexivity|]).
+  split; [|split; vm_compute; reflexivity].
+  intro j. unfold vtab, ex3_f1, ex3_f2. cbn [t_num map fst snd cval xval].
+  unfold snapshot, ex3_S, sources_of. cbn [nth_error src_fun length].
+  rewrite Nat.mod_1_r. reflexivity.
+Qed.
+Print Assumptions C06_nonvacuous_const_stream.
+
+Example C06_nonvacuous_built : bases_ok ex_expr.
+Proof. simpl. repeat split; repeat constructor; simpl; intuition discriminate. Qed.
+Print Assumptions C06_nonvacuous_built.
